@@ -55,6 +55,35 @@ def has_alt_chain(node):
     return (alt is not None and alt[2] is not None) or has_alt_chain(ref) or has_alt_chain(alt)
 
 
+def max_alt_chain(node):
+    """length of the longest chain of alternatives that follow one node"""
+    if node is None:
+        return 0
+    i, ref, alt = node
+    k, a = 0, alt
+    while a is not None:
+        k, a = k + 1, a[2]
+    return max(k, max_alt_chain(ref), max_alt_chain(alt))
+
+
+def chain_forest(k, style):
+    """where the k alternatives of one chain are written: a forest over 0..k-1 whose pre-order is the chain order;
+    (j, children) = alternative j is written in the block of its parent (a root: in the block of the node the chain
+    belongs to), and `children` are written inside its own block, one after the other."""
+    if style == "F" or k < 2:                 # all siblings
+        return [(j, []) for j in range(k)]
+    if style == "M" and k >= 3:               # the first one holds all the others, as siblings
+        return [(0, [(j, []) for j in range(1, k)])]
+    if style == "L" and k >= 3:               # siblings, the last one inside the one before it
+        return [(j, []) for j in range(k - 2)] + [(k - 2, [(k - 1, [])])]
+    if style == "K" and k >= 3:               # the second inside the first, the others siblings of the first
+        return [(0, [(1, [])])] + [(j, []) for j in range(2, k)]
+    f = []                                    # nested: each one inside the previous one
+    for j in reversed(range(k)):
+        f = [(j, f)]
+    return f
+
+
 def size(node):
     return 0 if node is None else 1 + size(node[1]) + size(node[2])
 
@@ -86,7 +115,8 @@ def cases(tier, inst):
             node = label(sh, [0])
             orders = ("ra", "ar") if has_both(node) else ("ra",)
             if has_alt_chain(node):
-                orders += tuple(o + "F" for o in orders)
+                styles = "F" + ("MLK" if max_alt_chain(node) >= 3 else "")
+                orders = orders + tuple(o + s for o in orders for s in styles)
             for order in orders:
                 for base in ("one", "join"):
                     for form in ("an", "infer"):
@@ -105,7 +135,9 @@ def cases(tier, inst):
                     yield ("zjoin", node, kinds, caching)
 
 
-def build_tree(node, x, y, views, order, inst, no_alts=False):
+def build_tree(node, x, y, views, order, inst, inner=None):
+    """`inner`: None when the node starts a chain (base or refinement), else the forest of the alternatives of the chain
+    it belongs to that are written inside its block."""
     i, ref, alt = node
     Add(views, W.Made(a=x, b=inst.v(i + 1), c=y) if y is not None else W.Made(a=x, b=inst.v(i + 1)))
 
@@ -117,28 +149,25 @@ def build_tree(node, x, y, views, order, inst, no_alts=False):
             c.append(y.p >= inst.v(1))
         return c
 
-    flat = order.endswith("F")
-
     def do_ref():
         if ref is not None:
             with refinement(*cond(ref[0])):
                 build_tree(ref, x, y, views, order, inst)
 
+    def write(forest, chain):
+        for j, children in forest:
+            with alternative(*cond(chain[j][0])):
+                build_tree(chain[j], x, y, views, order, inst, inner=(children, chain))
+
     def do_alt():
-        if alt is None or no_alts:
-            return
-        if not flat:
-            # nested style: the next alternative is written inside the block of the previous one
-            with alternative(*cond(alt[0])):
-                build_tree(alt, x, y, views, order, inst)
-        else:
-            # flat style (as in the repository's tests): the whole chain of alternatives of this node is written as
-            # sibling blocks, one after the other, in the block of the node
-            a = alt
+        if inner is not None:
+            write(*inner)
+        elif alt is not None:
+            chain, a = [], alt
             while a is not None:
-                with alternative(*cond(a[0])):
-                    build_tree(a, x, y, views, order, inst, no_alts=True)
+                chain.append(a)
                 a = a[2]
+            write(chain_forest(len(chain), order[2:]), chain)
 
     if order.startswith("ra"):
         do_ref()
@@ -362,22 +391,29 @@ def shape_class(node):
     return "+".join(f) or "simple"
 
 
-def show(node, inst, depth=1, ycond="", order="ra", no_alts=False):
+def show(node, inst, depth=1, ycond="", order="ra", inner=None):
     i, ref, alt = node
     pad = "    " * depth
     s = f"{pad}Add(views, Made(a=x, b={inst.v(i + 1)}))\n"
     r = a = ""
     if ref is not None:
         r = f"{pad}with refinement(x.t[{ref[0]}] == {inst.v(1)}{ycond}):\n" + show(ref, inst, depth + 1, ycond, order)
-    if alt is not None and not no_alts:
-        if not order.endswith("F"):
-            a = f"{pad}with alternative(x.t[{alt[0]}] == {inst.v(1)}{ycond}):\n" + show(alt, inst, depth + 1, ycond, order)
-        else:
-            n = alt
-            while n is not None:
-                a += (f"{pad}with alternative(x.t[{n[0]}] == {inst.v(1)}{ycond}):\n"
-                      + show(n, inst, depth + 1, ycond, order, no_alts=True))
-                n = n[2]
+
+    def write(forest, chain):
+        out = ""
+        for j, children in forest:
+            out += (f"{pad}with alternative(x.t[{chain[j][0]}] == {inst.v(1)}{ycond}):\n"
+                    + show(chain[j], inst, depth + 1, ycond, order, inner=(children, chain)))
+        return out
+
+    if inner is not None:
+        a = write(*inner)
+    elif alt is not None:
+        chain, n = [], alt
+        while n is not None:
+            chain.append(n)
+            n = n[2]
+        a = write(chain_forest(len(chain), order[2:]), chain)
     return s + (r + a if order.startswith("ra") else a + r)
 
 
